@@ -84,6 +84,26 @@ func (nc *nodeCase) drainPoolEvents(op string) string {
 	}
 }
 
+// emitPoolOrder tells the model the arrival order the real pool has (the restore loop of
+// reorganizeChain ranges over a Go map, so the order in which detached transactions re-enter
+// the pool is not determined by the history).
+func (nc *nodeCase) emitPoolOrder() {
+	if nc.pw == nil {
+		return
+	}
+	descs := nc.sut.pool.GetTransactions()
+	if len(descs) < 2 {
+		return
+	}
+	sort.Slice(descs, func(i, j int) bool { return descs[i].Added.Before(descs[j].Added) })
+	var names []string
+	for _, d := range descs {
+		id := d.Tx.ID
+		names = append(names, nc.txName(&id))
+	}
+	nc.emit("poolorder "+strings.Join(names, ","), "ok")
+}
+
 func txNum(name string) int {
 	var n int
 	fmt.Sscanf(name, "t%d", &n)
